@@ -1,6 +1,6 @@
 /- Line-protocol driver for the C02 models.  Run: `lean --run Driver/C02.lean < ops` (LEAN_PATH set).
    M1:  `dev <magic> <nLog> <nMem> <extbits|->`  resets the state;  then one op per line:
-        open <0|1> | deliver | work | err | arm | close | sopen <0|1> | sclose
+        open <0|1|3> | deliver | work | err | arm | close | sopen <0|1|3> | sclose   (0 no driver, 1 ok, 3 link error during connect())
         reply: `ok <outputs|-> st=<..> link=<0|1> open=<0|1> par=<n> vals=<n> log=<n> conn=<0|1>`;  `status` -> `ok waiting=<open|close|none>` -/
 import CfVerif.Base.Proto
 import CfVerif.Spec.C02
@@ -23,10 +23,10 @@ def showSt : St → String | .disc => "disc" | .init => "init" | .conn => "conn"
 def b01 (b : Bool) : String := if b then "1" else "0"
 
 def parseOp? : List String → Option Op
-  | ["open", "0"] => some (.open false) | ["open", "1"] => some (.open true)
+  | ["open", "0"] => some (.open .missing) | ["open", "1"] => some (.open .ok) | ["open", "3"] => some (.open .failing)
   | ["deliver"] => some .deliver | ["work"] => some .work | ["err"] => some .err | ["arm"] => some .arm
   | ["close"] => some .close
-  | ["sopen", "0"] => some (.syncOpen false) | ["sopen", "1"] => some (.syncOpen true)
+  | ["sopen", "0"] => some (.syncOpen .missing) | ["sopen", "1"] => some (.syncOpen .ok) | ["sopen", "3"] => some (.syncOpen .failing)
   | ["sclose"] => some .syncClose
   | _ => none
 
